@@ -49,7 +49,10 @@ TENSORS = [("A", "f", 1, 1), ("A", "V", 2, 2), ("A", "d", 1, 1),
 RULESETS = [None, None, None,
             {"f": ["ov", "vo"],
              "V": ["ooov", "oovv", "ovvv", "ovoo", "vvoo", "vvov"]},
-            {"f": ["oo", "vv"], "V": ["oooo", "ovov", "vvvv"]}]
+            {"f": ["oo", "vv"], "V": ["oooo", "ovov", "vvvv"]},
+            # rule sets with an empty block list next to a non-empty one
+            {"f": ["ov", "vo"], "V": []},
+            {"V": ["oovv", "vvoo", "ovov"], "f": [], "d": ["oo"]}]
 
 
 @st.composite
